@@ -11,6 +11,7 @@ NOT_DECIDED = [
     "content equality of fs::read_to_string",
 ]
 CONFIG_SENSITIVE = False
+DESUGAR = True
 
 ME = "metadata::MetadataEntry"
 TOF = "metadata::MetadataEntry::to_filename"
@@ -148,26 +149,46 @@ def run(ctx):
             for e in p.events:
                 if e.kind == "store" and isinstance(e.place, tuple) and e.place[0] == "field" and e.place[3] in ("pkgbase", "pkgversion", "pkgname", "path"):
                     stores[e.place[3]] = e.value
-            name_t = None
-            for fld, role in (("pkgbase", "prefix"), ("pkgversion", "suffix")):
-                v = stores.get(fld)
-                sps = find_split_parts(v) if v is not None else []
-                if not sps:
-                    ctx.violation("D3-ORIENT", NEXT, "field=%s" % fld, "%s is not assigned from a split of the directory name (got %s)" % (fld, term_str(v) if v else None), fn_span(body))
-                    continue
-                s0 = sps[0]
-                name_t = s0["subject"]
-                ctx.check(s0["sep"] == "-" and occurrence(s0) == "last", "D3-LASTSEP", NEXT, "field=%s" % fld,
-                          "split at the last '-' (%s)" % s0["api"],
-                          "%s comes from %s(%s, sep=%r): the name must be split at its LAST '-'" % (fld, s0["api"], s0["n"], s0["sep"]), body.span_of(p.blocks[-1]))
-                ctx.check(part_role(s0) == role, "D3-ORIENT", NEXT, "field=%s" % fld, "%s := %s of the name" % (fld, role),
-                          "%s is assigned the %s of the directory name (part %s of %s); expected the %s" % (fld, part_role(s0), s0["index"], s0["api"], role),
-                          body.span_of(p.blocks[-1]))
+            # the directory name: what pkgname is set from; pkgbase / pkgversion are its parts around the LAST '-' (whole name, "" without one)
             pn = stores.get("pkgname")
-            okn = pn is not None and name_t is not None and strip_refs(call_args(pn)[0]) == name_t if is_call(pn) else False
-            isdir = name_t is not None and mentions(name_t, lambda s: is_call(s, "DirEntry::file_name"))
-            ctx.check(okn and isdir, "D3-PKGNAME", NEXT, "field=pkgname", "pkgname := the directory name",
-                      "pkgname is not the (whole) directory entry name", fn_span(body))
+            name_t = content(pn) if pn is not None else None
+            isdir = name_t is not None and mentions(name_t, lambda s: is_call(s, "DirEntry::file_name")) and substr(pn) is None and not find_split_parts(pn)
+            if not isdir and name_t is not None:
+                # fall back to the name the parts are cut from, so that the orientation rules still speak about the directory name
+                cand = [substr(v) for v in (stores.get("pkgbase"), stores.get("pkgversion")) if v is not None and substr(v)]
+                name_t = cand[0][0] if cand else name_t
+            ctx.check(isdir, "D3-PKGNAME", NEXT, "field=pkgname", "pkgname := the directory name",
+                      "pkgname is not the (whole) directory entry name (got %s)" % (term_str(pn)[:120] if pn else None), fn_span(body), nontrivial=(i == 0))
+            isname = lambda t: t == name_t
+            found = search_outcome(p, isname, "-") if name_t is not None else None
+            vb, vv = stores.get("pkgbase"), stores.get("pkgversion")
+            # the un-evaluated idiom `name.rsplit_once('-').unwrap_or((name, ""))` (a module without DESUGAR) carries both outcomes in one term
+            legacy = [sp_ for sp_ in (find_split_parts(vb) if vb is not None else []) if sp_.get("default") is not None]
+            if found is None and legacy:
+                found = True
+            if found is None:
+                ctx.violation("D3-ORIENT", NEXT, "field=pkgbase", "pkgbase / pkgversion are not decided by a search for '-' in the directory name (got %s / %s)" % (
+                    term_str(vb)[:80] if vb else None, term_str(vv)[:80] if vv else None), fn_span(body))
+            elif found:
+                for fld, role, v in (("pkgbase", "prefix", vb), ("pkgversion", "suffix", vv)):
+                    ss = substr(v) if v is not None else None
+                    r = substr_role(ss)
+                    if r[0] not in ("prefix", "suffix"):
+                        sps = find_split_parts(v) if v is not None else []
+                        if sps:
+                            s0 = sps[0]
+                            r = (part_role(s0), {"last": "rfind", "first": "find"}.get(occurrence(s0), occurrence(s0)), s0["sep"])
+                            ss = (content(s0["subject"]), None, None)
+                    if r[0] not in ("prefix", "suffix"):
+                        ctx.violation("D3-ORIENT", NEXT, "field=%s" % fld, "%s is not assigned from a split of the directory name (got %s)" % (fld, term_str(v)[:120] if v else None), fn_span(body))
+                        continue
+                    ctx.check(r[2] == "-" and r[1] == "rfind", "D3-LASTSEP", NEXT, "field=%s" % fld, "split at the last '-'",
+                              "%s is cut at the %s occurrence of %r: the name must be split at its LAST '-'" % (fld, {"find": "first", "rfind": "last"}.get(r[1], r[1]), r[2]), body.span_of(p.blocks[-1]))
+                    ctx.check(r[0] == role and isname(ss[0]), "D3-ORIENT", NEXT, "field=%s" % fld, "%s := %s of the name" % (fld, role),
+                              "%s is assigned the %s of %s; expected the %s of the directory name" % (fld, r[0], term_str(ss[0])[:60], role), body.span_of(p.blocks[-1]))
+            else:
+                ctx.check(vb is not None and content(vb) == name_t and vv is not None and is_empty_str(vv), "D3-NODASH", NEXT, "no-dash", "no '-' -> (whole name, \"\")",
+                          "a directory name without '-' gives pkgbase=%s pkgversion=%s; expected (whole name, \"\")" % (term_str(vb)[:60] if vb else None, term_str(vv)[:60] if vv else None), fn_span(body))
             pa = stores.get("path")
             ctx.check(pa is not None and is_call(pa, "DirEntry::path"), "D4-PATH", NEXT, "field=path", "path := the directory's path",
                       "Package.path is not the directory entry's path", fn_span(body), nontrivial=False)
@@ -221,7 +242,7 @@ def run(ctx):
             ctx.check(ok, "D4-OPEN", OP, "directory", "directory -> DBType::Files with readdir = read_dir(that path)",
                       "opening a directory does not yield a Files database reading that directory", fn_span(body))
         ctx.floor("D4-OPEN", OP, "directory-opening paths", files, 1)
-        nf = [p for p in ret_paths(ps) if unwrap_err(p.end[1]) is not None and not find_calls(p.end[1], "from_residual")]
+        nf = [p for p in ret_paths(ps) if unwrap_err(p.end[1]) is not None and not is_propagated_err(p.end[1])]
         ok = bool(nf) and all(any(is_call(c.term, "Path::is_dir") and c.fact == ("eq", False) for c in p.conds()) for p in nf)
         ctx.check(ok, "D4-OPEN", OP, "neither", "neither file nor directory -> Err", "open() does not reject a path that is neither a directory nor a file", fn_span(body), nontrivial=False)
 
